@@ -32,6 +32,7 @@ type record struct {
 	TDefs int    `json:"tdefs,omitempty"`
 	Coll  int    `json:"coll,omitempty"`
 	Disc  int    `json:"disc,omitempty"`
+	Reuse int    `json:"reuse,omitempty"`
 	Abort string `json:"abort,omitempty"`
 }
 
@@ -87,7 +88,7 @@ func workerMain(args []string) {
 		for _, v := range res.Violations {
 			emit(record{T: "V", Case: c.ID, Key: v.Key, What: v.What, Line: line})
 		}
-		emit(record{T: "E", Case: c.ID, Steps: res.Steps, Cells: res.Cells, Scr: res.Scripts, TDefs: res.TempDefs, Coll: res.Collisions, Disc: res.Discards, Abort: res.Aborted})
+		emit(record{T: "E", Case: c.ID, Steps: res.Steps, Cells: res.Cells, Scr: res.Scripts, TDefs: res.TempDefs, Coll: res.Collisions, Disc: res.Discards, Reuse: res.Reused, Abort: res.Aborted})
 	}
 }
 
@@ -166,10 +167,61 @@ func battery() []Case {
 	return out
 }
 
+// churnCases are request-churn histories: many create / define / use / discard cycles of
+// request VMs, as a long-running hot-reload server produces them. Every cycle defines a name
+// through a fresh temp VM (the read-back after the definition runs every base-defined helper
+// on it), discards the VM (unreachable + GC, see discardTemp) and lets the slot's next
+// incarnation - which defines nothing, or something else - be read back through the same
+// helpers. Anything inside origami that remembers a finished request VM by a stale identity
+// (address, recycled id, pooled object) is met here.
+func churnCases(cycles int, off []string) []Case {
+	var out []Case
+	add := func(id, only string, ops []Op) {
+		out = append(out, Case{ID: id, Temps: 2, Names: 2, Only: only, Ops: ops})
+	}
+	isOff := map[string]bool{}
+	for _, f := range off {
+		isOff[f] = true
+	}
+	// one pair of histories per helper channel, with only that helper active
+	for _, ch := range channels {
+		if ch.Group != 't' || isOff[ch.Name] {
+			continue
+		}
+		dk := ch.Kind
+		// one slot: define a, discard, (every other incarnation defines nothing) discard, ...
+		var ops []Op
+		for i := 0; i < cycles; i++ {
+			ops = append(ops, Op{K: 'D', VM: 1, DK: dk, Name: 0, Var: i % nVariants(dk)}, Op{K: 'X', VM: 1})
+			if i%2 == 1 {
+				ops = append(ops, Op{K: 'T', VM: 1, Name: 0}, Op{K: 'X', VM: 1})
+			}
+		}
+		add("k-"+ch.Name+"-one", ch.Name, ops)
+		// two slots alternating, the other slot defines the second name
+		ops = nil
+		for i := 0; i < cycles/2; i++ {
+			a, b := 1+i%2, 2-i%2
+			ops = append(ops, Op{K: 'D', VM: a, DK: dk, Name: 0}, Op{K: 'D', VM: b, DK: dk, Name: 1}, Op{K: 'X', VM: a}, Op{K: 'O', VM: a, Name: 0}, Op{K: 'X', VM: b})
+		}
+		add("k-"+ch.Name+"-two", ch.Name, ops)
+	}
+	// all kinds and all helpers at once, with a base definition of the second name in view
+	var ops []Op
+	ops = append(ops, Op{K: 'D', VM: 0, DK: 'c', Name: 1}, Op{K: 'D', VM: 0, DK: 'f', Name: 1}, Op{K: 'D', VM: 0, DK: 'i', Name: 1})
+	for i := 0; i < cycles/2; i++ {
+		vm := 1 + i%2
+		ops = append(ops, Op{K: 'D', VM: vm, DK: 'c', Name: 0, Var: i % 5}, Op{K: 'D', VM: vm, DK: 'f', Name: 0, Var: i % 3}, Op{K: 'D', VM: vm, DK: 'i', Name: 0, Var: i % 3},
+			Op{K: 'X', VM: vm}, Op{K: 'T', VM: vm, Name: -1})
+	}
+	add("k-all", "", ops)
+	return out
+}
+
 type totals struct {
 	mu                                        sync.Mutex
 	cases, steps, cells, scripts, tdefs, coll int
-	disc, aborted, nontrivialCases            int
+	disc, reused, aborted, nontrivialCases    int
 }
 
 func runChunks(e *lib.Env, label string, cases []Case, off []string, tot *totals, distinct *lib.DistinctCounter, chunkSize int) {
@@ -229,6 +281,7 @@ func runChunks(e *lib.Env, label string, cases []Case, off []string, tot *totals
 						tot.tdefs += rec.TDefs
 						tot.coll += rec.Coll
 						tot.disc += rec.Disc
+						tot.reused += rec.Reuse
 						if rec.Abort != "" {
 							tot.aborted++
 						}
@@ -330,17 +383,47 @@ func main() {
 	runChunks(e, "exh", ex, off, tot, &distinct, (len(ex)+63)/64+1)
 
 	lap("exhaustive")
+	// 2b. request-churn histories (create / define / use / discard cycles)
+	cycles := e.Pick(60, 200)
+	churn := churnCases(cycles, off)
+	if !noPrepOff {
+		for i, c := range churnCases(cycles, off) {
+			if i%4 == 0 {
+				c.ID += "-noprep"
+				c.NoPrep = true
+				churn = append(churn, c)
+			}
+		}
+	}
+	runChunks(e, "churn", churn, off, tot, &distinct, 1)
+	lap("churn")
 	// 3. seeded histories of length 40: 1 base + 4 temps, 8 names
 	nSeeded := e.Pick(300, 6000)
 	r := e.Rand("seeded")
 	seeded := make([]Case, 0, nSeeded)
+	var helperOn []string
+	for _, ch := range channels {
+		on := ch.Group == 't'
+		for _, f := range off {
+			if f == ch.Name {
+				on = false
+			}
+		}
+		if on {
+			helperOn = append(helperOn, ch.Name)
+		}
+	}
 	for i := 0; i < nSeeded; i++ {
 		temps := 4
 		if i%5 == 4 {
 			temps = 2 + r.Intn(2)
 		}
 		noPrep := !noPrepOff && i%4 == 3
-		seeded = append(seeded, seededCase(r, fmt.Sprintf("s%d", i), temps, 8, 40, noPrep))
+		sc := seededCase(r, fmt.Sprintf("s%d", i), temps, 8, 40, noPrep)
+		if i%3 == 2 && len(helperOn) > 0 {
+			sc.Only = helperOn[r.Intn(len(helperOn))]
+		}
+		seeded = append(seeded, sc)
 	}
 	runChunks(e, "seed", seeded, off, tot, &distinct, (len(seeded)+63)/64+1)
 
@@ -349,6 +432,8 @@ func main() {
 	e.Extra("histories_exhaustive", nEx)
 	e.Extra("exhaustive_max_length", maxLen)
 	e.Extra("histories_seeded", nSeeded)
+	e.Extra("histories_churn", len(churn))
+	e.Extra("churn_cycles_per_history", cycles)
 	e.Extra("histories_battery", len(battery()))
 	e.Extra("steps", tot.steps)
 	e.Extra("table_cells_compared", tot.cells)
@@ -356,6 +441,7 @@ func main() {
 	e.Extra("temp_definitions", tot.tdefs)
 	e.Extra("steps_with_collision_in_view", tot.coll)
 	e.Extra("discards", tot.disc)
+	e.Extra("discards_followed_by_address_reuse", tot.reused)
 	e.Extra("histories_aborted", tot.aborted)
 	e.Extra("quarantined_channels", off)
 	e.Assume(
